@@ -5,13 +5,16 @@ import (
 	"testing"
 )
 
-func TestSizes(t *testing.T) {
-	for _, a := range []*alphabet{fullAlphabet(), repsAlphabet(), prunedAlphabet()} {
-		for d := 1; d <= 8; d++ {
-			for _, fj := range []bool{true, false} {
-				s := newShape(a, fj, d)
-				fmt.Printf("%-28s ranks=%d\n", s.String(), s.total)
-			}
+func TestShrink(t *testing.T) {
+	for _, j := range []CaseJSON{
+		{Host: "run", Frames: []string{"go:fcall>forof-step/return-throws", "js:none", "go:fcall"}, Payload: "goerr:%w"},
+		{Host: "job", Frames: []string{"js:catch", "go:dyn>forof-step/return-throws", "js:finally", "go:reflerr_wrap"}, Payload: "*Exception"},
+		{Host: "try(forof)", Frames: []string{"js:catch", "go:dyn>exportfn_err", "js:finally", "go:ctor"}, Payload: "{value:null}"},
+	} {
+		c, err := parseCase(j)
+		if err != nil {
+			t.Fatal(err)
 		}
+		fmt.Println(c, "=>", shrink(c))
 	}
 }
